@@ -13,18 +13,18 @@ CHECKS = {
         text='Bounded symbolic execution of the real query methods: the relation partition is decided for unbounded min/max/child count; '
              'all other queries for every tree shape up to the size bound with all cardinalities, one feature type / feature cardinality and one name symbolic. '
              'Holds-within-bound or replayed counterexample; not a proof.',
-        note='Trusted: CrossHair 0.0.110 with the two recorded engine patches, z3 5.1, the reference tree facts in fmverif/refsem.py; tree shapes are enumerated (N<=4 quick, N<=5 thorough).'),
+        note='Trusted: CrossHair 0.0.110 with the three recorded engine patches, z3 5.1, the reference tree facts in fmverif/refsem.py; tree shapes are enumerated (N<=4 quick, N<=5 thorough).'),
     'C13': dict(
         category='model_checking', design_ref='6 C13',
         technique='CrossHair symbolic execution (z3) of count_configurations_rec against a closed-form count on symbolic cardinalities; z3 AllSAT model counts of the reference semantics with and without constraints',
         text='Per tree shape the real estimate runs on symbolic (min,max) pairs and must equal the closed-form exact count (decided over all cardinalities); '
              'z3 counts configurations of tree /\\ constraints for the upper-bound half and validates the closed form. Bounded; not a proof.',
-        note='Trusted: CrossHair + engine patches, z3, reference semantics tree2z3; shapes enumerated N<=4/6; constraints: 1-2 trees of depth<=1.'),
+        note='Trusted: CrossHair + engine patches, z3, reference semantics tree2z3; shapes enumerated N<=4/6; constraints: 1-2 trees of depth<=1. Random shapes up to 16/40 features and the shipped corpus run natively against the closed form (counted apart); the result examined is that of the second execution of one operation object.'),
     'C14': dict(
         category='model_checking', design_ref='6 C14',
         technique='CrossHair symbolic execution (z3) of get_core_features on symbolic cardinalities vs forced-set closed form; z3 queries (T and ctcs and not f unsat) per returned feature',
         text='Per tree shape, all cardinalities symbolic: result == always-selected set, no duplicates, root included; with constraints every returned feature is z3-proved present in all configurations. Bounded.',
-        note='Trusted: CrossHair + patches, z3, tree2z3; the closed form is validated against z3 on every enumerated constraint-free instance. Shapes N<=5/6 (E1), N<=4/5 (E2).'),
+        note='Trusted: CrossHair + patches, z3, tree2z3; the closed form is validated against z3 on every enumerated constraint-free instance. Shapes N<=5/6 (E1), N<=4/5 (E2); simple constraints between every ordered pair of features; random larger shapes and the corpus natively.'),
     'C15': dict(
         category='model_checking', design_ref='6 C15',
         technique='CrossHair symbolic execution (z3) of get_atomic_sets on symbolic cardinalities vs co-selection closed form; z3 queries (T and ctcs and (f xor g) unsat) per pair',
@@ -34,7 +34,7 @@ CHECKS = {
         category='model_checking', design_ref='6 C16',
         technique='CrossHair symbolic execution (z3) of the six tree operations with symbolic cardinalities and symbolic leaf-group widths vs reference tree facts; exhaustive shape enumeration',
         text='Shapes are enumerated (enumeration); cardinalities and the widths of leaf groups are solver variables; every operation result must equal the reference tree fact on every path, incl. ancestors of every feature and the root-only model. Bounded.',
-        note='Trusted: CrossHair + patches, z3, reference tree facts. N<=5/6, widths<=4/6; corpus clause not covered by the solver.'),
+        note='Trusted: CrossHair + patches, z3, reference tree facts. N<=5/6, widths<=4/6; the corpus clause (48 / 1299 shipped files) and random larger shapes are concrete runs against the same definitions, not solver verdicts.'),
     'C18': dict(
         category='model_checking', design_ref='6 C18',
         technique='z3 equivalence queries over all truth assignments on what the real Constraint predicates / split_constraint returned for every enumerated expression tree; CrossHair symbolic execution of get_features / get_new_ctc_name on symbolic names',
@@ -52,7 +52,7 @@ CHECKS = {
         technique='CrossHair symbolic execution (z3) of FMMetrics.execute and all 40 metric methods on symbolic cardinalities and abstract flags vs reference definitions, identities and ratios; two-model histories',
         text='Per tree shape the whole report is computed by the real code on symbolic cardinalities / abstract flags and compared with definitions computed from the shape, the splitting identities, size/ratio rules and the stand-alone operations; '
              'a second model analysed on the same object must equal a fresh analysis. Names concrete (the code hashes them). Bounded.',
-        note='Trusted: CrossHair + patches, z3, reference definitions in fmverif/props/c17.py. Shapes N<=4/5; constraint lists are five concrete sets; filters are concrete subsets.'),
+        note='Trusted: CrossHair + patches, z3, reference definitions in fmverif/props/c17.py. Shapes N<=4/5; constraint lists are five concrete sets; filters: one rotating pair per shape symbolic-cards, every single metric / every ordered pair / random subsets natively; corpus and random larger shapes natively.'),
     'C19': dict(
         category='model_checking', design_ref='6 C19',
         technique='CrossHair symbolic execution (z3) of every operation in two-model histories with symbolic cardinalities, and of GenerateRandomAttribute with a stubbed random whose draws, range bounds and flags are symbolic',
